@@ -374,6 +374,67 @@ def replay_g_case(args: tuple[dict[str, Any], tuple[str, str]]) -> dict[str, Any
     shutil.rmtree(root, ignore_errors=True)
     return out
 
+
+# ----------------------------------------------------------------------------- ValidateMeta.tla cases
+def replay_validate_case(case: dict[str, Any]) -> dict[str, Any]:
+    """Create exactly the situation of one ValidateMeta.tla case around a real cache entry of module c and
+    observe the real decision (fresh / stale verdict, meta rewritten while loading)."""
+    W.preload()
+    root = scratch("c02v-")
+    src, cache = os.path.join(root, "src"), os.path.join(root, "cache")
+    t = W.Tree(src)
+    t.apply({"a": "use", "b": "reexport", "c": "c[0,0]"})
+    conds = set(case["conds"])
+    out: dict[str, Any] = {"violation": None, "mismatch": None, "runs": 2}
+    r1 = W.run_build(src, cache_dir=cache, store="fs", fmt="ff", tick=t.tick); t.tick = r1["tick"]
+    cdir = os.path.join(cache, "3.12")
+    cpath = os.path.join(src, "c.py")
+    st = os.stat(cpath)
+    if "touched" in conds:
+        os.utime(cpath, (st.st_mtime + 100, st.st_mtime + 100))
+    if "edited_same" in conds:
+        with open(cpath, "w") as f:
+            f.write(W.text_of("c", "c[0,0]").replace("return 1", "return 2"))
+        os.utime(cpath, (st.st_mtime + 100, st.st_mtime + 100))
+    if "edited_size" in conds:
+        with open(cpath, "a") as f:
+            f.write("# longer\n")
+        os.utime(cpath, (st.st_mtime + 100, st.st_mtime + 100))
+    sources = [("a.py", "a")]
+    if "moved" in conds:
+        os.makedirs(os.path.join(src, "sub"))
+        os.rename(cpath, os.path.join(src, "sub", "c.py"))       # rename keeps content and mtime
+        sources = [("a.py", "a"), (os.path.join("sub", "c.py"), "c")]
+    if "data_swapped" in conds:
+        p = os.path.join(cdir, "c.data.ff")
+        s2 = os.stat(p)
+        os.utime(p, (s2.st_mtime + 100, s2.st_mtime + 100))
+    for cnd, rec in (("data_gone", "c.data.ff"), ("meta_gone", "c.meta.ff"), ("ex_gone", "c.meta_ex.ff")):
+        if cnd in conds:
+            os.unlink(os.path.join(cdir, rec))
+    if "meta_garbage" in conds:
+        with open(os.path.join(cdir, "c.meta.ff"), "wb") as f:
+            f.write(b"\x00\x01garbage")
+    extra = {"strict_optional": False} if "key_option" in conds else {}
+    r2 = W.run_build(src, cache_dir=cache, store="fs", fmt="ff", tick=t.tick, sources=sources, extra_opts=extra)
+    c2 = W.run_build(src, cache_dir=None, record=False, sources=sources, extra_opts=extra)
+    if r2.get("crash") or W.norm(r2) != W.norm(c2):
+        out["violation"] = "warm: status %s %r ; cold: status %s %r %s" % (r2["status"], r2["messages"][:4], c2["status"], c2["messages"][:4], (r2.get("crash") or "")[-300:])
+    verdict = None
+    rewrite = False
+    for e in r2["trace"]:
+        if e["ev"] in ("fresh", "stale") and e["mod"] == "c":
+            verdict = e["ev"]
+            break
+        if e["ev"] == "store" and e["op"] == "write" and e["rec"].endswith("c.meta.ff"):
+            rewrite = True
+    got = {"fresh": verdict == "fresh", "rewrite": rewrite}
+    want = {"fresh": case["fresh"], "rewrite": case["rewrite"]}
+    if got != want:
+        out["mismatch"] = {"conds": sorted(conds), "real": got, "specification": want}
+    shutil.rmtree(root, ignore_errors=True)
+    return out
+
 EXT_DIMS = ["c.pyi", "d", "p/__init__", "p/x", "e", "@bdir"]
 
 
@@ -524,6 +585,28 @@ def main(argv: list[str]) -> int:
             v.violation("G:" + json.dumps({"g1": case["g1"], "g2": case["g2"], "e": case["e"]}, sort_keys=True),
                         {"kind": "G-case", "case": case, "cfg": cfg}, r["violation"]["what"])
     gdrift = [dict(r["drift"], case={k: c[k] for k in ("g1", "g2", "e")}) for (c, _), r in zip(gwork, gresults) if r["drift"]]
+    # ---- 3a''. the validity decision table (ValidateMeta.tla): every <=2 conditions around a real cache entry
+    sany(os.path.join(SPEC, "MC_ValidateMeta.tla"))
+    gv = tlc("MC_ValidateMeta", "Gen_ValidateMeta.cfg", workers=1, coverage=False)
+    if not gv.ok:
+        raise MachineryError("ValidateMeta: %s %s" % (gv.violated, gv.error))
+    vcases = gv.json_lines("CASE")
+    if len(vcases) < 40:
+        raise MachineryError("too few ValidateMeta cases")
+    states += gv.distinct; transitions += gv.generated
+    vresults = []
+    with ProcessPoolExecutor(16) as pex:
+        for res in pex.map(replay_validate_case, vcases, chunksize=2):
+            vresults.append(res)
+    n_runs += sum(r["runs"] for r in vresults)
+    for case, r in zip(vcases, vresults):
+        if r["violation"]:
+            v.violation("V:" + json.dumps(sorted(case["conds"])), {"kind": "validate-case", "case": case}, "conditions %s: %s" % (sorted(case["conds"]), r["violation"]))
+        elif r["mismatch"] and r["mismatch"]["real"]["fresh"] and not r["mismatch"]["specification"]["fresh"]:
+            # the code TRUSTS an entry the specification (transcribing the documented validity rule) says is invalid
+            v.violation("V-trust:" + json.dumps(sorted(case["conds"])), {"kind": "validate-case", "case": case, "mismatch": r["mismatch"]},
+                        "cache entry trusted although %s (the validity rule says stale)" % sorted(case["conds"]))
+    vdrift = [r["mismatch"] for r in vresults if r["mismatch"]]
     # ---- 3b. the repository's own multi-step incremental scenarios, expected outputs ignored
     from harness import corpus as C
     from harness.common import REPO
@@ -559,7 +642,7 @@ def main(argv: list[str]) -> int:
         "traces_validated_against_impl": tv["validated"],
         "evaluations": len(work) + len(rwork) + len(twork) + len(cwork) + len(gwork), "distinct_nontrivial": nontrivial, "runs_compared_with_cold": n_runs,
         "corpus_cases_run": sum(1 for r in cresults if not r["skipped"]), "corpus_cases_skipped": sum(1 for r in cresults if r["skipped"]),
-        "model_histories": len(hists), "model_history_replays": len(work), "r_two_step": len(pairs), "r_multi_step": len(multi), "t_histories": len(twork), "g_cases": len(gwork), "g_model_drift_count": len(gdrift), "g_model_drift": gdrift[:5],
+        "model_histories": len(hists), "model_history_replays": len(work), "r_two_step": len(pairs), "r_multi_step": len(multi), "t_histories": len(twork), "g_cases": len(gwork), "validate_cases": len(vcases), "validate_model_drift": vdrift[:6], "validate_model_drift_count": len(vdrift), "g_model_drift_count": len(gdrift), "g_model_drift": gdrift[:5],
         "model_drift": [{"cfg": w[1], "drift": d} for w, d in drift[:10]], "model_drift_count": len(drift),
         "rule": "every history TLC emits for Gen_Incremental.cfg (<=3 runs, <=2 edits, <=1 touch over catalogue M) replayed in the store x format "
                 "configurations (quick: rotating, thorough: all four); catalogue R two-step histories (a fixed set of 500 / 12,000) and a fixed set of 3-4 step "
